@@ -64,6 +64,11 @@ def perturbed_texts(mnem):
     for v in (0, 1, 3, 100, 124, 125, 126, 127, 128, 129, 130, 131, 132, 200, 255, 256, 300, 1000):
         for t in ("L+{}", "L-{}", "{}+L", "L+${:X}", "L-${:X}"):
             yield t.format(v)
+    # two-term expressions of constants whose RESULT leaves the field (the terms themselves are in range)
+    for e in ("1000-50000", "5-32774", "5-40000", "5-65535", "0-32769", "0-32768", "60000+10000", "65535+1", "300*300", "1-300", "200+100", "100-229",
+              "E-50000", "E*E*1"[:3], "65535/1", "1/0"):
+        for tmpl in ("#{}", "{}", "<{}", ">{}", "[{}]", "{},X", "{},Y", "[{},X]", "{},PCR", "[{},U]"):
+            yield tmpl.format(e)
     yield "A,B,X,Y,U,S,PC,CC,DP,D"
     yield "A,,B"
     yield "A,B,"
